@@ -259,6 +259,13 @@ class BundleFlattener(ElabPass):
             msg = f"Invalid Port Connection to {portname} on Instance {inst}"
             self.fail(msg)
 
+        # Check that everything being connected has a place to go
+        extra = [path for path in flat.signals if path not in flat_bundle_port.signals]
+        if extra:
+            msg = f"Invalid connection to `{portname}` on Instance `{inst.name}`: "
+            msg += f"`{extra}` not among its Signals `{list(flat_bundle_port.signals.keys())}`."
+            self.fail(msg)
+
         # Disconnect the old hierarchical Bundle port
         inst.disconnect(portname)
 
